@@ -3,13 +3,17 @@
    operand element, y_j = x_{sigma(j)} (Slice, Reshape/UnSqueeze/Squeeze/Flatten, Transpose,
    Broadcast, Concat per operand) or of one of two operands (Patch).  For such an operation the
    vector-Jacobian product is  g_i = Σ_{j : sigma(j) = i} gy_j.
-   Instance: the reals, [R_scalar thr draw] for arbitrary thr, draw. *)
+   Instance: the reals, [R_scalar thr draw] for arbitrary thr, draw.
+   Contents: 1. vjp_gather(_opt)(_inv)  2. vjp_slice  3. vjp_reshape  4. bcastBack_char, vjp_broadcast_sum,
+   broadcast_avg_char, broadcast_avg_refuted (known finding D2)  5. vjp_patch_src/_tgt, vjp_concat(_edge),
+   vjp_transpose  6. the same under "the forward call returned Ok" (…_fwd)  7. examples.
+   Every theorem also concludes that the rule evaluates to Ok (never Err, never Panic). *)
 From Coq Require Import List Arith ZArith Bool Lia ZifyBool Reals Lra.
 From Coquelicot Require Import Coquelicot.
 From Qeep Require Import Model.Scalar Model.Nd Model.Fill Model.Data Model.Valid Model.Api Model.Grad.
 From Qeep Require Import Spec.RScalar Spec.VjpSpec.
 From Qeep Require Import Proofs.NdP Proofs.ElemP Proofs.SliceP Proofs.OdometerP Proofs.ReshapeP
-  Proofs.BroadcastP Proofs.ReduceP.
+  Proofs.BroadcastP Proofs.ReduceP Proofs.TransposeP.
 Import ListNotations.
 Local Open Scope R_scope.
 
@@ -668,11 +672,11 @@ Proof.
             rewrite Edel, app_length in Lm. lia. }
       rewrite push_scal.
       rewrite (push_comp ds ds1 zeroAt (pj (S n) src) f i).
-      2:{ intros m Hm. unfold zeroAt, ds1. rewrite <- (ins_app_exact pre 1%nat dst n eq_refl).
-          pose proof (validIdx_del n ds m Hm) as Hdm. rewrite Edel in Hdm.
-          rewrite <- (del_app_exact pre 1%nat dst n eq_refl) in Hdm.
-          apply validIdx_ins; [rewrite ins_length, app_length; lia|exact Hdm|].
-          rewrite nth_ins by (rewrite app_length; lia). lia. }
+      2:{ intros m Hm. apply validIdx_app_inv in Hm as (a & q0 & -> & Ha & Hq0).
+          apply validIdx_cons in Hq0 as (k & q & -> & Hk & Hq).
+          pose proof (validIdx_length _ _ Ha) as La. fold n in La.
+          unfold zeroAt, ds1. rewrite (del_app_exact a k q n La), (ins_app_exact a 0%nat q n La).
+          apply Forall2_app; [exact Ha|]. constructor; [lia|exact Hq]. }
       rewrite (push_ext ds (fun m => pj (S n) src (zeroAt m)) (pj n (1%nat :: src)) f f i); [ring| |reflexivity].
       intros m Hm. apply validIdx_app_inv in Hm as (a & q0 & -> & Ha & Hq0).
       apply validIdx_cons in Hq0 as (k & q & -> & Hk & Hq).
@@ -681,4 +685,697 @@ Proof.
       rewrite (pj_S n src a 0%nat q La), (pj_c n 1%nat src a k q La). reflexivity.
 Qed.
 
+(* ---------- the whole back edge ---------- *)
+
+Lemma validIdx_skipn n : forall ds j, validIdx ds j -> validIdx (skipn n ds) (skipn n j).
+Proof.
+  induction n as [|n IH]; intros ds j H; [exact H|].
+  destruct H as [|k d j ds Hk H]; cbn [skipn]; [constructor|apply IH, H].
+Qed.
+
+(* the accumulated factor: 1 for SumAlong; for AvgAlong the inverse of the product of the reduced sizes *)
+Definition bfac (rd : bred) (src shape : list nat) : R :=
+  rdcs rd (firstn (length shape - length src) shape) *
+  rdcs rd (redDims src (skipn (length shape - length src) shape)).
+
+Theorem bcastBack_char rd (gy : tensor R) src shape : wf gy -> dims gy = shape -> bcompat src shape ->
+  exists g, bcastBack rd gy src shape = Ok g /\ dims g = src /\ wf g /\
+    forall i, validIdx src i ->
+      elt g i = bfac rd src shape *
+                sumIdx shape (fun j => if idx_eqb (bproj src shape j) i then elt gy j else 0).
+Proof.
+  intros Hw Hd [Hl HF]. unfold bcastBack, bfac. set (L := (length shape - length src)%nat) in *.
+  assert (LL : length (firstn L shape) = L) by (apply firstn_length_le; lia).
+  assert (Hr : repr gy (firstn L shape ++ skipn L shape) (elt gy)).
+  { rewrite firstn_skipn, <- Hd. apply repr_self, Hw. }
+  destruct (bcLead_repr rd (firstn L shape) (skipn L shape) gy (elt gy) Hr) as (g1 & E1 & H1).
+  rewrite LL in E1, H1. rewrite E1. cbn [res_bind]. rewrite firstn_skipn in H1.
+  destruct (bcDims_repr rd src (skipn L shape) HF [] g1 _ H1) as (g & Eg & Hdg & Hwg & Hg).
+  cbn [length app] in Eg, Hdg, Hg. exists g. split; [exact Eg|]. split; [exact Hdg|]. split; [exact Hwg|].
+  intros i Hi. rewrite (Hg i Hi), push_scal.
+  rewrite (push_comp shape (skipn L shape) (skipn L) (pj 0 src) (elt gy) i) by (intros j Hj; apply validIdx_skipn, Hj).
+  unfold push, pj, bproj, proj. cbn [firstn skipn app]. fold L. ring.
+Qed.
+
+Lemma rdcs_sum l : rdcs RedSum l = 1.
+Proof. induction l as [|d l IH]; cbn [rdcs rdc]; [reflexivity|rewrite IH; ring]. Qed.
+
+Lemma rdcs_avg l : rdcs RedAvg l = / INR (prodn l).
+Proof.
+  induction l as [|d l IH]; cbn [rdcs rdc].
+  - change (prodn []) with 1%nat. change (INR 1) with 1. rewrite Rinv_1. reflexivity.
+  - rewrite IH, prodn_cons, mult_INR, Rinv_mult. reflexivity.
+Qed.
+
+Lemma redDims_prodn src dst : Forall2 (fun s d => s = d \/ s = 1%nat) src dst ->
+  (prodn (redDims src dst) * prodn src = prodn dst)%nat.
+Proof.
+  induction 1 as [|s d src dst Hsd HF IH]; [reflexivity|]. cbn [redDims].
+  destruct (Nat.eqb_spec s d) as [->|Hne]; cbn [app]; rewrite !prodn_cons.
+  - rewrite <- IH. lia.
+  - destruct Hsd as [Hsd|Hsd]; [contradiction|]. subst s. rewrite <- IH. lia.
+Qed.
+
+Lemma bfac_sum src shape : bfac RedSum src shape = 1.
+Proof. unfold bfac. rewrite !rdcs_sum. ring. Qed.
+
+(* the expansion factor: how many positions of the result every operand element was copied to *)
+Lemma bfac_avg src shape : bcompat src shape -> allpos shape ->
+  bfac RedAvg src shape = / INR (prodn shape / prodn src).
+Proof.
+  intros [Hl HF] Hp. unfold bfac. set (L := (length shape - length src)%nat) in *.
+  rewrite !rdcs_avg, <- Rinv_mult, <- mult_INR. f_equal. f_equal.
+  pose proof (redDims_prodn src (skipn L shape) HF) as E.
+  pose proof (prodn_split L shape) as E2.
+  assert (Hpos : (0 < prodn (skipn L shape))%nat) by (apply prodn_pos, (allpos_split L shape Hp)).
+  assert (Hs : prodn src <> 0%nat) by (intros Z; rewrite Z in E; lia).
+  rewrite E2, <- E, Nat.mul_assoc. symmetry. apply Nat.div_mul, Hs.
+Qed.
+
+(* C07: with SumAlong the Broadcast back edge is the vector-Jacobian product: every operand
+   element receives the sum of the upstream gradient over all positions it was copied to.
+   Covers new leading dimensions, expanded size-1 dimensions, both, and neither (shape = dims xv). *)
+Theorem vjp_broadcast_sum (h : heap) (y x : nat) (xv yv gy : tensor R) :
+  valOf h x = Some xv -> valOf h y = Some yv -> gradOf h y = Some gy ->
+  wf gy -> dims gy = dims yv -> bcompat (dims xv) (dims yv) ->
+  exists g, eval_rule RedSum h (RBroadcast y x) = Ok g /\ dims g = dims xv /\ wf g /\
+    (forall i, validIdx (dims xv) i ->
+       elt g i = sumIdx (dims yv) (fun j => if idx_eqb (bproj (dims xv) (dims yv) j) i then elt gy j else 0)) /\
+    is_vjp (dims xv) (dims yv) (fun a j => a (bproj (dims xv) (dims yv) j)) (elt xv) (elt gy) (elt g).
+Proof.
+  intros Ex Eyv Ey Hwg Hdg Hc. cbn [eval_rule].
+  rewrite (heap_gy h y gy Ey), (heap_val h x xv Ex), (heap_val h y yv Eyv). cbn [res_bind].
+  destruct (bcastBack_char RedSum gy (dims xv) (dims yv) Hwg Hdg Hc) as (g & Eg & Hd & Hw & Hel).
+  exists g. split; [exact Eg|]. split; [exact Hd|]. split; [exact Hw|].
+  assert (Hel' : forall i, validIdx (dims xv) i ->
+     elt g i = sumIdx (dims yv) (fun j => if idx_eqb (bproj (dims xv) (dims yv) j) i then elt gy j else 0)).
+  { intros i Hi. rewrite (Hel i Hi), bfac_sum. ring. }
+  split; [exact Hel'|]. apply vjp_gather. exact Hel'.
+Qed.
+
+(* known finding D2: the pinned library reduces with AvgAlong; the result is the same sum divided by
+   the expansion factor *)
+Theorem broadcast_avg_char (h : heap) (y x : nat) (xv yv gy : tensor R) :
+  valOf h x = Some xv -> valOf h y = Some yv -> gradOf h y = Some gy ->
+  wf gy -> dims gy = dims yv -> bcompat (dims xv) (dims yv) ->
+  exists g, eval_rule RedAvg h (RBroadcast y x) = Ok g /\ dims g = dims xv /\ wf g /\
+    forall i, validIdx (dims xv) i ->
+      elt g i = sumIdx (dims yv) (fun j => if idx_eqb (bproj (dims xv) (dims yv) j) i then elt gy j else 0)
+                / INR (prodn (dims yv) / prodn (dims xv)).
+Proof.
+  intros Ex Eyv Ey Hwg Hdg Hc. cbn [eval_rule].
+  rewrite (heap_gy h y gy Ey), (heap_val h x xv Ex), (heap_val h y yv Eyv). cbn [res_bind].
+  destruct (bcastBack_char RedAvg gy (dims xv) (dims yv) Hwg Hdg Hc) as (g & Eg & Hd & Hw & Hel).
+  exists g. split; [exact Eg|]. split; [exact Hd|]. split; [exact Hw|].
+  intros i Hi. rewrite (Hel i Hi), bfac_avg; [unfold Rdiv; ring|exact Hc|].
+  rewrite <- Hdg. exact (proj2 Hwg).
+Qed.
+
+(* hence the averaged gradient is a vector-Jacobian product only if it agrees with the sum *)
+Corollary broadcast_avg_vjp_only_if (h : heap) (y x : nat) (xv yv gy ga : tensor R) :
+  valOf h x = Some xv -> valOf h y = Some yv -> gradOf h y = Some gy ->
+  wf gy -> dims gy = dims yv -> bcompat (dims xv) (dims yv) ->
+  eval_rule RedAvg h (RBroadcast y x) = Ok ga ->
+  is_vjp (dims xv) (dims yv) (fun a j => a (bproj (dims xv) (dims yv) j)) (elt xv) (elt gy) (elt ga) ->
+  forall i, validIdx (dims xv) i ->
+    let S := sumIdx (dims yv) (fun j => if idx_eqb (bproj (dims xv) (dims yv) j) i then elt gy j else 0) in
+    S = S / INR (prodn (dims yv) / prodn (dims xv)).
+Proof.
+  intros Ex Eyv Ey Hwg Hdg Hc Ea Hv i Hi S.
+  destruct (broadcast_avg_char h y x xv yv gy Ex Eyv Ey Hwg Hdg Hc) as (g & Eg & _ & _ & Hel).
+  assert (g = ga) by congruence. subst g.
+  subst S. rewrite <- (Hel i Hi). symmetry. apply (vjp_gather_inv _ _ _ _ _ _ Hv i Hi).
+Qed.
+
+(* ---------- a concrete refutation of the averaged rule (known finding D2) ---------- *)
+(* operand of shape [2] broadcast to [3;2], upstream gradient all ones: the vector-Jacobian
+   product is [3;3] (what SumAlong gives); the pinned AvgAlong gives [1;1] *)
+Definition bx0 : tensor R := ofFun [2%nat] (fun _ => 0).
+Definition by0 : tensor R := ofFun [3%nat; 2%nat] (fun _ => 0).
+Definition bg0 : tensor R := ofFun [3%nat; 2%nat] (fun _ => 1).
+Definition bh0 : heap :=
+  [mkNode bx0 true false None [] None;
+   mkNode by0 true false (Some bg0) [(0%nat, RBroadcast 1 0)] None].
+
+Lemma lsum_bool {X} (l : list X) (hb : X -> bool) (c : R) :
+  lsum l (fun j => if hb j then c else 0) = lsum (map hb l) (fun b : bool => if b then c else 0).
+Proof. symmetry. apply lsum_map. Qed.
+
+Lemma bsum0 (k : nat) : (k < 2)%nat ->
+  sumIdx [3%nat; 2%nat] (fun j => if idx_eqb (bproj [2%nat] [3%nat; 2%nat] j) [k] then elt bg0 j else 0) = 3.
+Proof.
+  intros Hk.
+  transitivity (sumIdx [3%nat; 2%nat] (fun j => if idx_eqb (bproj [2%nat] [3%nat; 2%nat] j) [k] then 1 else 0)).
+  { apply sumIdx_ext. intros j Hj. unfold bg0. rewrite (elt_ofFun _ _ _ Hj). reflexivity. }
+  change (lsum (allIdx [3%nat; 2%nat]) (fun j => if idx_eqb (bproj [2%nat] [3%nat; 2%nat] j) [k] then 1 else 0) = 3).
+  rewrite (lsum_bool (allIdx [3%nat; 2%nat]) (fun j => idx_eqb (bproj [2%nat] [3%nat; 2%nat] j) [k]) 1).
+  destruct k as [|[|k]]; [| |lia].
+  - replace (map (fun j => idx_eqb (bproj [2%nat] [3%nat; 2%nat] j) [0%nat]) (allIdx [3%nat; 2%nat]))
+      with [true; false; true; false; true; false] by (vm_compute; reflexivity).
+    unfold lsum. cbn [map fold_right]. ring.
+  - replace (map (fun j => idx_eqb (bproj [2%nat] [3%nat; 2%nat] j) [1%nat]) (allIdx [3%nat; 2%nat]))
+      with [false; true; false; true; false; true] by (vm_compute; reflexivity).
+    unfold lsum. cbn [map fold_right]. ring.
+Qed.
+
+Theorem broadcast_avg_refuted :
+  exists gs ga,
+    eval_rule RedSum bh0 (RBroadcast 1 0) = Ok gs /\ eval_rule RedAvg bh0 (RBroadcast 1 0) = Ok ga /\
+    elt gs [0%nat] = 3 /\ elt gs [1%nat] = 3 /\ elt ga [0%nat] = 1 /\ elt ga [1%nat] = 1 /\
+    is_vjp [2%nat] [3%nat; 2%nat] (fun a j => a (bproj [2%nat] [3%nat; 2%nat] j)) (elt bx0) (elt bg0) (elt gs) /\
+    ~ is_vjp [2%nat] [3%nat; 2%nat] (fun a j => a (bproj [2%nat] [3%nat; 2%nat] j)) (elt bx0) (elt bg0) (elt ga).
+Proof.
+  assert (Hwg : wf bg0) by (apply ofFun_wf; repeat constructor).
+  assert (Hc : bcompat (dims bx0) (dims by0)).
+  { split; [cbn; lia|]. cbn. repeat constructor. }
+  destruct (vjp_broadcast_sum bh0 1 0 bx0 by0 bg0 eq_refl eq_refl eq_refl Hwg eq_refl Hc) as (gs & Es & _ & _ & Hs & Hvs).
+  destruct (broadcast_avg_char bh0 1 0 bx0 by0 bg0 eq_refl eq_refl eq_refl Hwg eq_refl Hc) as (ga & Ea & _ & _ & Ha).
+  change (dims bx0) with [2%nat] in *. change (dims by0) with [3%nat; 2%nat] in *.
+  assert (V0 : validIdx [2%nat] [0%nat]) by (repeat constructor).
+  assert (V1 : validIdx [2%nat] [1%nat]) by (repeat constructor).
+  assert (E3 : INR (prodn [3%nat; 2%nat] / prodn [2%nat]) = 3).
+  { replace (prodn [3%nat; 2%nat] / prodn [2%nat])%nat with 3%nat by (vm_compute; reflexivity). simpl. lra. }
+  assert (A0 : elt ga [0%nat] = 1) by (rewrite (Ha _ V0), bsum0, E3 by lia; lra).
+  assert (A1 : elt ga [1%nat] = 1) by (rewrite (Ha _ V1), bsum0, E3 by lia; lra).
+  exists gs, ga. split; [exact Es|]. split; [exact Ea|].
+  split; [rewrite (Hs _ V0); apply bsum0; lia|]. split; [rewrite (Hs _ V1); apply bsum0; lia|].
+  split; [exact A0|]. split; [exact A1|]. split; [exact Hvs|].
+  intros Hv. pose proof (vjp_gather_inv _ _ _ _ _ _ Hv [0%nat] V0) as E. rewrite bsum0 in E by lia. lra.
+Qed.
+
+(* the general theorem at work on both phases: operand [2;1] broadcast to [4;2;3] *)
+Definition bx1 : tensor R := ofFun [2%nat; 1%nat] (fun _ => 0).
+Definition by1 : tensor R := ofFun [4%nat; 2%nat; 3%nat] (fun _ => 0).
+Definition bg1 : tensor R := ofFun [4%nat; 2%nat; 3%nat] (fun j => INR (flatIdx [4%nat; 2%nat; 3%nat] j)).
+Definition bh1 : heap :=
+  [mkNode bx1 true false None [] None;
+   mkNode by1 true false (Some bg1) [(0%nat, RBroadcast 1 0)] None].
+Example vjp_broadcast_ex :
+  wf bg1 /\ bcompat (dims bx1) (dims by1) /\
+  exists g, eval_rule RedSum bh1 (RBroadcast 1 0) = Ok g /\ dims g = [2%nat; 1%nat] /\
+    is_vjp [2%nat; 1%nat] [4%nat; 2%nat; 3%nat] (fun a j => a (bproj [2%nat; 1%nat] [4%nat; 2%nat; 3%nat] j))
+           (elt bx1) (elt bg1) (elt g).
+Proof.
+  assert (Hwg : wf bg1) by (apply ofFun_wf; repeat constructor).
+  assert (Hc : bcompat (dims bx1) (dims by1)).
+  { split; [cbn; lia|]. cbn. constructor; [left; reflexivity|]. constructor; [right; reflexivity|constructor]. }
+  split; [exact Hwg|]. split; [exact Hc|].
+  destruct (vjp_broadcast_sum bh1 1 0 bx1 by1 bg1 eq_refl eq_refl eq_refl Hwg eq_refl Hc) as (g & Eg & Hd & _ & _ & Hv).
+  exists g. split; [exact Eg|]. split; [exact Hd|exact Hv].
+Qed.
+
+(* ====================================================================== *)
+(* 5. Patch (both operands), Concat, Transpose                            *)
+(* ====================================================================== *)
+
+Lemma region_of_ok : forall ci ds, Forall2 (fun r d => (fst r < snd r)%nat /\ (snd r <= d)%nat) ci ds ->
+  region ci (sizes ci) ds.
+Proof.
+  induction 1 as [|r d ci ds Hr HF IH]; cbn [sizes map region]; [exact I|].
+  split; [lia|exact IH].
+Qed.
+
+(* a slice of the upstream gradient is the vector-Jacobian product for an operand that was
+   block-copied into the result: y_j = a_{j - From} inside the block, independent of a outside *)
+Definition blockSigma (ci : list range) (dus : list nat) : list nat -> option (list nat) :=
+  fun j => if inBlock ci dus j then Some (unshift j ci) else None.
+
+Lemma sum_hits_block ci dus dts (gy : assignment) i : region ci dus dts -> validIdx dus i ->
+  sumIdx dts (fun j => if hits (blockSigma ci dus) j i then gy j else 0) = gy (shift i ci).
+Proof.
+  intros Hreg Hi. destruct (region_shift ci dus dts Hreg i Hi) as (Hv & Hb & Hu).
+  apply (sum_hits_one dts (fun j => hits (blockSigma ci dus) j i) gy (shift i ci) Hv).
+  - unfold hits, blockSigma. rewrite Hb, Hu. apply idx_eqb_refl.
+  - intros j Hj E. unfold hits, blockSigma in E. destruct (inBlock ci dus j) eqn:Eb; [|discriminate].
+    apply idx_eqb_eq in E. destruct (inBlock_unshift ci dus dts Hreg j Hj Eb) as [_ Hs].
+    rewrite <- Hs, E. reflexivity.
+Qed.
+
+Lemma vjp_slice_of_gy (gy : tensor R) (index : list zrange) (c x : assignment) :
+  wf gy -> validateSliceIndexAgainstDims index (zdims gy) = true ->
+  exists g, v_slice gy index = Ok g /\
+    dims g = sizes (completeIndex (rangesOf index) (dims gy)) /\ wf g /\
+    (forall i, validIdx (dims g) i -> elt g i = elt gy (shift i (completeIndex (rangesOf index) (dims gy)))) /\
+    is_vjp (dims g) (dims gy)
+           (gatherF (blockSigma (completeIndex (rangesOf index) (dims gy)) (dims g)) c) x (elt gy) (elt g).
+Proof.
+  intros Hwg V. destruct (v_slice_spec gy index Hwg) as [H1 _]. destruct (H1 V) as (g & Eg & Hd & Hw & Hg).
+  exists g. split; [exact Eg|]. split; [exact Hd|]. split; [exact Hw|].
+  set (ci := completeIndex (rangesOf index) (dims gy)) in *.
+  assert (Hel : forall i, validIdx (dims g) i -> elt g i = elt gy (shift i ci)).
+  { intros i Hi. unfold elt. rewrite (Hg i Hi). reflexivity. }
+  split; [exact Hel|].
+  assert (Hreg : region ci (dims g) (dims gy)).
+  { rewrite Hd. apply region_of_ok. apply completeIndex_ok; [|exact (proj2 Hwg)].
+    unfold zdims in V. apply validateSlice_iff in V. apply zsliceOk_nat, V. }
+  apply vjp_gather_opt. intros i Hi. rewrite (Hel i Hi). symmetry.
+  apply (sum_hits_block ci (dims g) (dims gy)); assumption.
+Qed.
+
+(* Concat, per operand: y.Gradient().Slice(index) *)
+Theorem vjp_concat (rd : bred) (h : heap) (y : nat) (index : list zrange) (gy : tensor R) (c x : assignment) :
+  gradOf h y = Some gy -> wf gy -> validateSliceIndexAgainstDims index (zdims gy) = true ->
+  exists g, eval_rule rd h (RConcat y index) = Ok g /\
+    dims g = sizes (completeIndex (rangesOf index) (dims gy)) /\ wf g /\
+    (forall i, validIdx (dims g) i -> elt g i = elt gy (shift i (completeIndex (rangesOf index) (dims gy)))) /\
+    is_vjp (dims g) (dims gy)
+           (gatherF (blockSigma (completeIndex (rangesOf index) (dims gy)) (dims g)) c) x (elt gy) (elt g).
+Proof.
+  intros Ey Hwg V. cbn [eval_rule]. rewrite (heap_gy h y gy Ey). cbn [res_bind].
+  apply vjp_slice_of_gy; assumption.
+Qed.
+
+(* Patch, source operand (the repaired rule F3): the explicit region the source occupied *)
+Lemma patchedRegion_spec : forall dus dts, Forall2 le dus dts -> allpos dus ->
+  forall index, zpatchOk index dus dts ->
+    zsliceOk (patchedRegion index (map Z.of_nat dus)) dts /\
+    completeIndex (rangesOf (patchedRegion index (map Z.of_nat dus))) dts = completeIndex (rangesOf index) dus.
+Proof.
+  intros dus dts HF. induction HF as [|du dt dus dts Hle HF IH]; intros Hp index Hz.
+  - cbn. split; [exact I|reflexivity].
+  - inversion Hp as [|? ? Hdu Hp']; subst. destruct index as [|[f t] index]; cbn [map patchedRegion].
+    + destruct (IH Hp' [] I) as [I1 I2]. cbn [zsliceOk rangesOf map fst snd completeIndex] in *.
+      split; [split; [lia|exact I1]|]. rewrite Nat2Z.id.
+      replace ((Z.to_nat 0 =? 0)%nat && (du =? 0)%nat) with false by (symmetry; apply andb_false_iff; right; apply Nat.eqb_neq; lia).
+      f_equal. exact I2.
+    + cbn [zpatchOk] in Hz. destruct Hz as [H0 Hz]. destruct (IH Hp' index Hz) as [I1 I2].
+      destruct ((f =? 0)%Z && (t =? 0)%Z) eqn:E; cbn [zsliceOk rangesOf map fst snd completeIndex] in *.
+      * split; [split; [lia|exact I1]|]. rewrite Nat2Z.id.
+        replace ((Z.to_nat 0 =? 0)%nat && (du =? 0)%nat) with false by (symmetry; apply andb_false_iff; right; apply Nat.eqb_neq; lia).
+        replace ((Z.to_nat f =? 0)%nat && (Z.to_nat t =? 0)%nat) with true by (symmetry; apply andb_true_iff; split; apply Nat.eqb_eq; lia).
+        f_equal. exact I2.
+      * split; [split; [lia|exact I1]|].
+        replace ((Z.to_nat f =? 0)%nat && (Z.to_nat t =? 0)%nat) with false by (symmetry; apply andb_false_iff; right; apply Nat.eqb_neq; lia).
+        f_equal. exact I2.
+Qed.
+
+Theorem vjp_patch_src (rd : bred) (h : heap) (y p : nat) (index : list zrange) (xv pv gy : tensor R) :
+  valOf h p = Some pv -> gradOf h y = Some gy -> wf pv -> wf gy -> dims gy = dims xv ->
+  validatePatchIndexAgainstDims index (zdims pv) (zdims xv) = true ->
+  exists g, eval_rule rd h (RPatchP y p index) = Ok g /\ dims g = dims pv /\ wf g /\
+    (forall i, validIdx (dims pv) i -> elt g i = elt gy (shift i (completeIndex (rangesOf index) (dims pv)))) /\
+    is_vjp (dims pv) (dims gy)
+           (gatherF (blockSigma (completeIndex (rangesOf index) (dims pv)) (dims pv)) (elt xv))
+           (elt pv) (elt gy) (elt g).
+Proof.
+  intros Ep Ey Hwp Hwg Hdg V. cbn [eval_rule]. rewrite (heap_gy h y gy Ey), (heap_val h p pv Ep). cbn [res_bind].
+  unfold zdims in V. apply validatePatch_iff in V as [HF Hz].
+  destruct (patchedRegion_spec (dims pv) (dims xv) HF (proj2 Hwp) index Hz) as [Hs Hci].
+  rewrite <- Hdg in Hs, Hci, HF, Hz.
+  destruct (vjp_slice_of_gy gy (patchedRegion index (zdims pv)) (elt xv) (elt pv) Hwg) as (g & Eg & Hd & Hw & Hel & Hv).
+  { unfold zdims. apply validateSlice_iff. exact Hs. }
+  unfold zdims in Hd, Hel, Hv at 1. rewrite Hci in Hd, Hel, Hv.
+  assert (Hreg : region (completeIndex (rangesOf index) (dims pv)) (dims pv) (dims gy)).
+  { apply completeIndex_region; [exact HF|]. apply zpatchOk_nat, Hz. }
+  rewrite (region_sizes _ _ _ Hreg) in Hd. rewrite Hd in Hel, Hv.
+  exists g. split; [exact Eg|]. split; [exact Hd|]. split; [exact Hw|]. split; [exact Hel|exact Hv].
+Qed.
+
+(* Patch, target operand: the upstream gradient with the patched block zeroed *)
+Theorem vjp_patch_tgt (rd : bred) (h : heap) (y p : nat) (index : list zrange) (xv pv gy : tensor R) :
+  valOf h p = Some pv -> gradOf h y = Some gy -> wf pv -> wf gy -> dims gy = dims xv ->
+  validatePatchIndexAgainstDims index (zdims pv) (zdims xv) = true ->
+  exists g, eval_rule rd h (RPatchX y p index) = Ok g /\ dims g = dims xv /\ wf g /\
+    (forall i, validIdx (dims xv) i ->
+       elt g i = if inBlock (completeIndex (rangesOf index) (dims pv)) (dims pv) i then 0 else elt gy i) /\
+    is_vjp (dims xv) (dims gy)
+           (gatherF (fun j => if inBlock (completeIndex (rangesOf index) (dims pv)) (dims pv) j then None else Some j)
+                    (fun j => elt pv (unshift j (completeIndex (rangesOf index) (dims pv)))))
+           (elt xv) (elt gy) (elt g).
+Proof.
+  intros Ep Ey Hwp Hwg Hdg V. cbn [eval_rule]. rewrite (heap_gy h y gy Ey), (heap_val h p pv Ep). cbn [res_bind].
+  destruct (toZeros_spec pv Hwp) as (z & Ez & Hdz & Hwz & Hz0). rewrite Ez. cbn [res_bind].
+  destruct (v_patch_spec gy z index Hwg Hwz) as [H1 _]. destruct H1 as (g & Eg & Hd & Hw & Hg).
+  { unfold zdims. rewrite Hdz, Hdg. exact V. }
+  rewrite Hdz in Hg. set (ci := completeIndex (rangesOf index) (dims pv)) in *.
+  unfold zdims in V. apply validatePatch_iff in V as [HF Hzp].
+  assert (Hreg : region ci (dims pv) (dims xv)).
+  { apply completeIndex_region; [exact HF|]. apply zpatchOk_nat, Hzp. }
+  exists g. split; [exact Eg|]. split; [congruence|]. split; [exact Hw|].
+  assert (Hel : forall i, validIdx (dims xv) i -> elt g i = if inBlock ci (dims pv) i then 0 else elt gy i).
+  { intros i Hi. unfold elt at 1. rewrite Hg by (rewrite Hdg; exact Hi).
+    destruct (inBlock ci (dims pv) i) eqn:Eb; [|reflexivity].
+    destruct (inBlock_unshift ci (dims pv) (dims xv) Hreg i Hi Eb) as [Hv _]. exact (Hz0 _ Hv). }
+  split; [exact Hel|]. rewrite Hdg.
+  apply vjp_gather_opt. intros i Hi. rewrite (Hel i Hi). symmetry.
+  destruct (inBlock ci (dims pv) i) eqn:Eb.
+  - apply sum_hits_none. intros j Hj. unfold hits. destruct (inBlock ci (dims pv) j) eqn:Ej; [reflexivity|].
+    apply idx_eqb_neq. intros ->. congruence.
+  - apply (sum_hits_one (dims xv) (fun j => hits (fun j0 => if inBlock ci (dims pv) j0 then None else Some j0) j i) (elt gy) i Hi).
+    + unfold hits. rewrite Eb. apply idx_eqb_refl.
+    + intros j Hj E. unfold hits in E. destruct (inBlock ci (dims pv) j); [discriminate|]. apply idx_eqb_eq, E.
+Qed.
+
+(* Transpose: y.Gradient().Transpose() *)
+Theorem vjp_transpose (rd : bred) (h : heap) (y : nat) (xv gy : tensor R) :
+  gradOf h y = Some gy -> wf gy -> (2 <= length (dims xv))%nat -> dims gy = transposeDims (dims xv) ->
+  exists g, eval_rule rd h (RTranspose y) = Ok g /\ dims g = dims xv /\ wf g /\
+    (forall i, validIdx (dims xv) i -> elt g i = elt gy (transposeDims i)) /\
+    is_vjp (dims xv) (dims gy) (fun a j => a (transposeDims j)) (elt xv) (elt gy) (elt g).
+Proof.
+  intros Ey Hwg Hrank Hdg. cbn [eval_rule]. rewrite (heap_gy h y gy Ey). cbn [res_bind].
+  unfold v_transpose, guard.
+  assert (Hr : (2 <= length (dims gy))%nat) by (rewrite Hdg, transposeDims_length; exact Hrank).
+  rewrite (proj2 (validateTransposeDims_rank R gy) Hr).
+  destruct (transpose_get R gy Hwg) as (g & Eg & Hd & Hw & Hg). rewrite Eg. cbn [of_opt].
+  rewrite Hdg, transposeDims_invol in Hd, Hg.
+  exists g. split; [reflexivity|]. split; [exact Hd|]. split; [exact Hw|].
+  assert (Hel : forall i, validIdx (dims xv) i -> elt g i = elt gy (transposeDims i)).
+  { intros i Hi. unfold elt. rewrite (Hg i Hi). reflexivity. }
+  split; [exact Hel|]. apply vjp_gather. intros i Hi. rewrite (Hel i Hi). symmetry.
+  assert (Hv : validIdx (dims gy) (transposeDims i)) by (rewrite Hdg; apply validIdx_transposeDims, Hi).
+  apply (sum_hits_one (dims gy) (fun j => idx_eqb (transposeDims j) i) (elt gy) (transposeDims i) Hv).
+  - apply idx_eqb_eq, transposeDims_invol.
+  - intros j Hj E. apply idx_eqb_eq in E. rewrite <- E. symmetry. apply transposeDims_invol.
+Qed.
+
+(* ====================================================================== *)
+(* 6. the same theorems under the forward call's precondition             *)
+(*    (the forward call returned Ok; the upstream gradient has the shape  *)
+(*    of the forward result).  Each also states that the forward result   *)
+(*    is the gather the VJP is taken of.                                  *)
+(* ====================================================================== *)
+
+Theorem vjp_slice_fwd (rd : bred) (h : heap) (y x : nat) (index : list zrange) (xv yv gy : tensor R) :
+  valOf h x = Some xv -> gradOf h y = Some gy -> wf xv -> v_slice xv index = Ok yv ->
+  wf gy -> dims gy = dims yv ->
+  let ci := completeIndex (rangesOf index) (dims xv) in
+  (forall j, validIdx (dims yv) j -> elt yv j = elt xv (shift j ci)) /\
+  exists g, eval_rule rd h (RSliceX y x index) = Ok g /\ dims g = dims xv /\ wf g /\
+    is_vjp (dims xv) (dims yv) (fun a j => a (shift j ci)) (elt xv) (elt gy) (elt g).
+Proof.
+  intros Ex Ey Hwx Ev Hwg Hdg ci. destruct (v_slice_spec xv index Hwx) as [H1 H2].
+  destruct (validateSliceIndexAgainstDims index (zdims xv)) eqn:V; [|rewrite (H2 eq_refl) in Ev; discriminate].
+  destruct (H1 eq_refl) as (r & Er & Hd & _ & Hg). assert (r = yv) by congruence. subst r. split.
+  - intros j Hj. unfold elt. rewrite (Hg j Hj). reflexivity.
+  - destruct (vjp_slice rd h y x index xv gy Ex Ey Hwx V Hwg ltac:(congruence)) as (g & Eg & Hdg' & Hw & _ & Hv).
+    rewrite Hdg in Hv. exists g. split; [exact Eg|]. split; [assumption|]. split; [exact Hw|exact Hv].
+Qed.
+
+Lemma reshaped_prodn (xv yv : tensor R) shape : wf xv -> reshaped R xv yv shape -> prodn (dims yv) = prodn (dims xv).
+Proof.
+  intros [Hwx _] (_ & [Hwy _] & Hf).
+  rewrite <- (flat_length R _ _ Hwy), <- (flat_length R _ _ Hwx), Hf. reflexivity.
+Qed.
+
+(* Reshape, UnSqueeze, Squeeze and Flatten all install the rule RReshape *)
+Definition reshapeCall (xv yv : tensor R) : Prop :=
+  (exists shape, v_reshape xv shape = Ok yv) \/ (exists dim, v_unsqueeze xv dim = Ok yv) \/
+  (exists dim, v_squeeze xv dim = Ok yv) \/ (exists dim, v_flatten xv dim = Ok yv).
+
+Lemma reshapeCall_reshaped (xv yv : tensor R) : wf xv -> reshapeCall xv yv -> exists shape, reshaped R xv yv shape.
+Proof.
+  intros Hwx [(shape & E)|[(dim & E)|[(dim & E)|(dim & E)]]].
+  - destruct (v_reshape_spec R xv shape Hwx) as [H1 H2].
+    destruct (validateInputDims shape && validateReshape (zdims xv) shape);
+      [|rewrite (H2 eq_refl) in E; discriminate].
+    destruct (H1 eq_refl) as (r & Er & Hr). assert (r = yv) by congruence. subst r. eexists; exact Hr.
+  - destruct (v_unsqueeze_spec R xv dim Hwx) as [H1 H2].
+    destruct (validateUnSqueezeDim dim (zdims xv)); [|rewrite (H2 eq_refl) in E; discriminate].
+    destruct (H1 eq_refl) as (r & Er & Hr). assert (r = yv) by congruence. subst r. eexists; exact Hr.
+  - destruct (v_squeeze_spec R xv dim Hwx) as [H1 H2].
+    destruct (validateSqueezeDim dim (zdims xv)); [|rewrite (H2 eq_refl) in E; discriminate].
+    destruct (H1 eq_refl) as (r & Er & Hr). assert (r = yv) by congruence. subst r. eexists; exact Hr.
+  - destruct (v_flatten_spec R xv dim Hwx) as [H1 H2].
+    destruct (validateFlattenDim dim (zdims xv)); [|rewrite (H2 eq_refl) in E; discriminate].
+    destruct (H1 eq_refl) as (r & Er & Hr). assert (r = yv) by congruence. subst r. eexists; exact Hr.
+Qed.
+
+Theorem vjp_reshape_fwd (rd : bred) (h : heap) (y x : nat) (xv yv gy : tensor R) :
+  valOf h x = Some xv -> gradOf h y = Some gy -> wf xv -> reshapeCall xv yv ->
+  wf gy -> dims gy = dims yv ->
+  (forall j, validIdx (dims yv) j -> elt yv j = elt xv (unflatIdx (dims xv) (flatIdx (dims yv) j))) /\
+  exists g, eval_rule rd h (RReshape y x) = Ok g /\ dims g = dims xv /\ wf g /\
+    is_vjp (dims xv) (dims yv) (fun a j => a (unflatIdx (dims xv) (flatIdx (dims yv) j)))
+           (elt xv) (elt gy) (elt g).
+Proof.
+  intros Ex Ey Hwx Hcall Hwg Hdg. destruct (reshapeCall_reshaped xv yv Hwx Hcall) as (shape & Hr).
+  pose proof (reshaped_prodn xv yv shape Hwx Hr) as Hn. split.
+  - destruct Hr as (Hd & Hwy & Hf). rewrite Hd in *.
+    apply (reshaped_elt xv yv shape Hwx); [split; [exact Hd|split; assumption]|exact Hn].
+  - destruct (vjp_reshape rd h y x xv gy Ex Ey Hwx Hwg ltac:(congruence)) as (g & Eg & Hd & Hw & _ & Hv).
+    rewrite Hdg in Hv. exists g. split; [exact Eg|]. split; [assumption|]. split; [exact Hw|exact Hv].
+Qed.
+
+Theorem vjp_broadcast_fwd (h : heap) (y x : nat) (shape : list Z) (xv yv gy : tensor R) :
+  valOf h x = Some xv -> valOf h y = Some yv -> gradOf h y = Some gy -> wf xv ->
+  v_broadcast xv shape = Ok yv -> wf gy -> dims gy = dims yv ->
+  (forall j, validIdx (dims yv) j -> elt yv j = elt xv (bproj (dims xv) (dims yv) j)) /\
+  (exists g, eval_rule RedSum h (RBroadcast y x) = Ok g /\ dims g = dims xv /\ wf g /\
+     is_vjp (dims xv) (dims yv) (fun a j => a (bproj (dims xv) (dims yv) j)) (elt xv) (elt gy) (elt g)) /\
+  (exists g, eval_rule RedAvg h (RBroadcast y x) = Ok g /\ dims g = dims xv /\ wf g /\
+     forall i, validIdx (dims xv) i ->
+       elt g i = sumIdx (dims yv) (fun j => if idx_eqb (bproj (dims xv) (dims yv) j) i then elt gy j else 0)
+                 / INR (prodn (dims yv) / prodn (dims xv))).
+Proof.
+  intros Ex Eyv Ey Hwx Ev Hwg Hdg. destruct (v_broadcast_spec R xv shape Hwx) as [H1 H2].
+  destruct (validateInputDims shape && validateBroadcast (zdims xv) shape) eqn:V;
+    [|rewrite (H2 eq_refl) in Ev; discriminate].
+  destruct (H1 eq_refl) as (r & Er & Hd & Hwy & Hg). assert (r = yv) by congruence. subst r.
+  apply validateBroadcast_shape_iff in V as (ns & -> & _ & Hc). rewrite natsOf_of_nat in Hd, Hg. subst ns.
+  split; [|split].
+  - intros j Hj. unfold elt. rewrite (Hg j Hj). reflexivity.
+  - destruct (vjp_broadcast_sum h y x xv yv gy Ex Eyv Ey Hwg Hdg Hc) as (g & Eg & Hd & Hw & _ & Hv).
+    exists g. split; [exact Eg|]. split; [exact Hd|]. split; [exact Hw|exact Hv].
+  - apply (broadcast_avg_char h y x xv yv gy Ex Eyv Ey Hwg Hdg Hc).
+Qed.
+
+Theorem vjp_patch_fwd (rd : bred) (h : heap) (y p : nat) (index : list zrange) (xv pv yv gy : tensor R) :
+  valOf h p = Some pv -> gradOf h y = Some gy -> wf xv -> wf pv -> v_patch xv index pv = Ok yv ->
+  wf gy -> dims gy = dims yv ->
+  let ci := completeIndex (rangesOf index) (dims pv) in
+  dims yv = dims xv /\
+  (forall j, validIdx (dims yv) j ->
+     elt yv j = if inBlock ci (dims pv) j then elt pv (unshift j ci) else elt xv j) /\
+  (exists g, eval_rule rd h (RPatchX y p index) = Ok g /\ dims g = dims xv /\ wf g /\
+     is_vjp (dims xv) (dims yv)
+            (gatherF (fun j => if inBlock ci (dims pv) j then None else Some j) (fun j => elt pv (unshift j ci)))
+            (elt xv) (elt gy) (elt g)) /\
+  (exists g, eval_rule rd h (RPatchP y p index) = Ok g /\ dims g = dims pv /\ wf g /\
+     is_vjp (dims pv) (dims yv) (gatherF (blockSigma ci (dims pv)) (elt xv)) (elt pv) (elt gy) (elt g)).
+Proof.
+  intros Ep Ey Hwx Hwp Ev Hwg Hdg ci. destruct (v_patch_spec xv pv index Hwx Hwp) as [H1 H2].
+  destruct (validatePatchIndexAgainstDims index (zdims pv) (zdims xv)) eqn:V;
+    [|rewrite (H2 eq_refl) in Ev; discriminate].
+  destruct (H1 eq_refl) as (r & Er & Hd & _ & Hg). assert (r = yv) by congruence. subst r.
+  rewrite Hd in Hdg. split; [exact Hd|]. split; [|split].
+  - intros j Hj. rewrite Hd in Hj. unfold elt. rewrite (Hg j Hj). fold ci. destruct (inBlock ci (dims pv) j); reflexivity.
+  - destruct (vjp_patch_tgt rd h y p index xv pv gy Ep Ey Hwp Hwg Hdg V) as (g & Eg & Hdg' & Hw & _ & Hv).
+    rewrite Hdg in Hv. rewrite Hd. exists g. split; [exact Eg|]. split; [exact Hdg'|]. split; [exact Hw|exact Hv].
+  - destruct (vjp_patch_src rd h y p index xv pv gy Ep Ey Hwp Hwg Hdg V) as (g & Eg & Hdg' & Hw & _ & Hv).
+    rewrite Hdg in Hv. rewrite Hd. exists g. split; [exact Eg|]. split; [exact Hdg'|]. split; [exact Hw|exact Hv].
+Qed.
+
+Theorem vjp_transpose_fwd (rd : bred) (h : heap) (y : nat) (xv yv gy : tensor R) :
+  gradOf h y = Some gy -> wf xv -> v_transpose xv = Ok yv -> wf gy -> dims gy = dims yv ->
+  (forall j, validIdx (dims yv) j -> elt yv j = elt xv (transposeDims j)) /\
+  exists g, eval_rule rd h (RTranspose y) = Ok g /\ dims g = dims xv /\ wf g /\
+    is_vjp (dims xv) (dims yv) (fun a j => a (transposeDims j)) (elt xv) (elt gy) (elt g).
+Proof.
+  intros Ey Hwx Ev Hwg Hdg. unfold v_transpose, guard in Ev.
+  destruct (validateTransposeDims (zdims xv)) eqn:V; [|discriminate].
+  apply validateTransposeDims_rank in V.
+  destruct (transpose_get R xv Hwx) as (r & Er & Hd & _ & Hg). rewrite Er in Ev. cbn [of_opt] in Ev.
+  assert (r = yv) by congruence. subst r. split.
+  - intros j Hj. rewrite Hd in Hj. unfold elt. rewrite (Hg j Hj). reflexivity.
+  - destruct (vjp_transpose rd h y xv gy Ey Hwg V ltac:(congruence)) as (g & Eg & Hdg' & Hw & _ & Hv).
+    rewrite Hdg in Hv. exists g. split; [exact Eg|]. split; [assumption|]. split; [exact Hw|exact Hv].
+Qed.
+
+(* Concat: the index gradtrack.Concat installs on the edge of the operand that occupies
+   [base, base + n) along dimension [length pre] validates against the result's shape, and the
+   slice has the operand's shape *)
+Definition catIndex (dim : nat) (base sz : Z) (s len : nat) : list zrange :=
+  map (fun i => if (i =? dim)%nat then (base, (base + sz)%Z) else (0, 0)%Z) (seq s len).
+
+Lemma concatEdges_index (y dim : nat) (x : nat) (xv : tensor R) rest (base : Z) :
+  concatEdges y dim ((x, xv) :: rest) base =
+  (x, RConcat y (catIndex dim base (Z.of_nat (nth dim (dims xv) 0%nat)) 0 (length (dims xv))))
+    :: concatEdges y dim rest (base + Z.of_nat (nth dim (dims xv) 0%nat))%Z.
+Proof. reflexivity. Qed.
+
+Lemma catIndex_post dim base sz : forall post s, (dim < s)%nat ->
+  zsliceOk (catIndex dim base sz s (length post)) post /\
+  completeIndex (rangesOf (catIndex dim base sz s (length post))) post = map (fun d => (0%nat, d)) post.
+Proof.
+  unfold catIndex. induction post as [|d post IH]; intros s Hs; cbn [length seq map]; [split; [exact I|reflexivity]|].
+  destruct (Nat.eqb_spec s dim) as [E|_]; [lia|]. destruct (IH (S s) ltac:(lia)) as [I1 I2].
+  cbn [zsliceOk rangesOf map fst snd completeIndex]. split; [split; [left; split; reflexivity|exact I1]|].
+  cbn. f_equal. exact I2.
+Qed.
+
+Lemma catIndex_pre post n base total : (0 < n)%nat -> (base + n <= total)%nat -> forall pre s,
+  let index := catIndex (s + length pre) (Z.of_nat base) (Z.of_nat n) s (length (pre ++ n :: post)) in
+  zsliceOk index (pre ++ total :: post) /\
+  completeIndex (rangesOf index) (pre ++ total :: post)
+  = map (fun d => (0%nat, d)) pre ++ (base, (base + n)%nat) :: map (fun d => (0%nat, d)) post.
+Proof.
+  intros Hn Hb. induction pre as [|a pre IH]; intros s; cbn zeta.
+  - cbn [app length]. rewrite Nat.add_0_r. unfold catIndex. cbn [seq map]. rewrite Nat.eqb_refl.
+    destruct (catIndex_post s (Z.of_nat base) (Z.of_nat n) post (S s) ltac:(lia)) as [I1 I2].
+    unfold catIndex in I1, I2. cbn [zsliceOk rangesOf map fst snd completeIndex]. split; [split; [right; lia|exact I1]|].
+    replace ((Z.to_nat (Z.of_nat base) =? 0)%nat && (Z.to_nat (Z.of_nat base + Z.of_nat n) =? 0)%nat) with false
+      by (symmetry; apply andb_false_iff; right; apply Nat.eqb_neq; lia).
+    unfold rangesOf in I2. rewrite I2. rewrite <- Nat2Z.inj_add, !Nat2Z.id. reflexivity.
+  - cbn [app length]. unfold catIndex. cbn [seq map].
+    destruct (Nat.eqb_spec s (s + S (length pre))) as [E|_]; [lia|].
+    specialize (IH (S s)). cbn zeta in IH. replace (S s + length pre)%nat with (s + S (length pre))%nat in IH by lia.
+    destruct IH as [I1 I2]. unfold catIndex in I1, I2.
+    cbn [zsliceOk rangesOf map fst snd completeIndex]. split; [split; [left; split; reflexivity|exact I1]|].
+    cbn. f_equal. exact I2.
+Qed.
+
+Theorem vjp_concat_edge (rd : bred) (h : heap) (y : nat) (gy : tensor R) pre post (n base total : nat)
+        (c x : assignment) :
+  gradOf h y = Some gy -> wf gy -> dims gy = pre ++ total :: post -> (0 < n)%nat -> (base + n <= total)%nat ->
+  let index := catIndex (length pre) (Z.of_nat base) (Z.of_nat n) 0 (length (pre ++ n :: post)) in
+  let ci := map (fun d => (0%nat, d)) pre ++ (base, (base + n)%nat) :: map (fun d => (0%nat, d)) post in
+  exists g, eval_rule rd h (RConcat y index) = Ok g /\ dims g = pre ++ n :: post /\ wf g /\
+    (forall i, validIdx (pre ++ n :: post) i -> elt g i = elt gy (shift i ci)) /\
+    is_vjp (pre ++ n :: post) (dims gy) (gatherF (blockSigma ci (pre ++ n :: post)) c) x (elt gy) (elt g).
+Proof.
+  intros Ey Hwg Hdg Hn Hb index ci.
+  destruct (catIndex_pre post n base total Hn Hb pre 0) as [Hz Hci]. cbn zeta in Hz, Hci. cbn [Nat.add] in Hz, Hci.
+  fold index in Hz, Hci. fold ci in Hci.
+  destruct (vjp_concat rd h y index gy c x Ey Hwg) as (g & Eg & Hd & Hw & Hel & Hv).
+  { unfold zdims. rewrite Hdg. apply validateSlice_iff, Hz. }
+  rewrite Hdg, Hci in Hd, Hel, Hv.
+  assert (Es : sizes ci = pre ++ n :: post).
+  { pose proof (sizes_nil_index pre) as P1. pose proof (sizes_nil_index post) as P2.
+    unfold ci. unfold sizes in P1, P2 |- *. rewrite map_app. cbn [map]. rewrite P1, P2. cbn [fst snd].
+    f_equal. f_equal. lia. }
+  rewrite Es in Hd. rewrite Hd in Hel, Hv. rewrite <- Hdg in Hv.
+  exists g. split; [exact Eg|]. split; [exact Hd|]. split; [exact Hw|]. split; [exact Hel|exact Hv].
+Qed.
+
+(* ====================================================================== *)
+(* non-vacuity: hand-built heaps satisfying the hypotheses                *)
+(* ====================================================================== *)
+Definition val2 (j : list nat) : R := INR (flatIdx [9%nat; 9%nat; 9%nat] j).
+Definition mkLeaf (v : tensor R) : node := mkNode v true false None [] None.
+Definition mkRes (v g : tensor R) (es : list (nat * rule)) : node := mkNode v true false (Some g) es None.
+
+Lemma wf_ofFun_ex ds (f : assignment) : allpos ds -> wf (ofFun ds f).
+Proof. apply ofFun_wf. Qed.
+
+(* Reshape [2;3] -> [3;2] *)
+Example vjp_reshape_ex :
+  let xv := ofFun [2%nat; 3%nat] val2 in let gy := ofFun [3%nat; 2%nat] val2 in
+  let h := [mkLeaf xv; mkRes (ofFun [3%nat; 2%nat] val2) gy [(0%nat, RReshape 1 0)]] in
+  exists g, eval_rule RedSum h (RReshape 1 0) = Ok g /\ dims g = [2%nat; 3%nat] /\
+            elt g [1%nat; 0%nat] = val2 [1%nat; 1%nat] /\
+            is_vjp [2%nat; 3%nat] [3%nat; 2%nat]
+                   (fun a j => a (unflatIdx [2%nat; 3%nat] (flatIdx [3%nat; 2%nat] j))) (elt xv) (elt gy) (elt g).
+Proof.
+  intros xv gy h.
+  assert (Hwx : wf xv) by (apply wf_ofFun_ex; repeat constructor).
+  assert (Hwg : wf gy) by (apply wf_ofFun_ex; repeat constructor).
+  destruct (vjp_reshape RedSum h 1 0 xv gy eq_refl eq_refl Hwx Hwg eq_refl) as (g & Eg & Hd & _ & Hel & Hv).
+  exists g. split; [exact Eg|]. split; [exact Hd|]. split; [|exact Hv].
+  rewrite (Hel [1%nat; 0%nat]) by (repeat constructor).
+  replace (unflatIdx (dims gy) (flatIdx (dims xv) [1%nat; 0%nat])) with [1%nat; 1%nat] by (vm_compute; reflexivity).
+  apply elt_ofFun. repeat constructor.
+Qed.
+
+(* Slice of [3;4] at rows 1..3 (second range omitted = whole dimension) *)
+Example vjp_slice_ex :
+  let xv := ofFun [3%nat; 4%nat] val2 in let gy := ofFun [2%nat; 4%nat] val2 in
+  let h := [mkLeaf xv; mkRes gy gy [(0%nat, RSliceX 1 0 [(1, 3)%Z])]] in
+  exists g, eval_rule RedSum h (RSliceX 1 0 [(1, 3)%Z]) = Ok g /\ dims g = [3%nat; 4%nat] /\
+            elt g [0%nat; 2%nat] = 0 /\ elt g [2%nat; 3%nat] = val2 [1%nat; 3%nat] /\
+            is_vjp [3%nat; 4%nat] [2%nat; 4%nat]
+                   (fun a j => a (shift j [(1, 3); (0, 4)]%nat)) (elt xv) (elt gy) (elt g).
+Proof.
+  intros xv gy h.
+  assert (Hwx : wf xv) by (apply wf_ofFun_ex; repeat constructor).
+  assert (Hwg : wf gy) by (apply wf_ofFun_ex; repeat constructor).
+  destruct (vjp_slice RedSum h 1 0 [(1, 3)%Z] xv gy eq_refl eq_refl Hwx eq_refl Hwg eq_refl)
+    as (g & Eg & Hd & _ & Hel & Hv).
+  exists g. split; [exact Eg|]. split; [exact Hd|].
+  split; [rewrite (Hel [0%nat; 2%nat]) by (repeat constructor); reflexivity|].
+  split; [|exact Hv].
+  rewrite (Hel [2%nat; 3%nat]) by (repeat constructor).
+  replace (inBlock (completeIndex (rangesOf [(1, 3)%Z]) (dims xv)) (dims gy) [2%nat; 3%nat]) with true by (vm_compute; reflexivity).
+  replace (unshift [2%nat; 3%nat] (completeIndex (rangesOf [(1, 3)%Z]) (dims xv))) with [1%nat; 3%nat] by (vm_compute; reflexivity).
+  apply elt_ofFun. repeat constructor.
+Qed.
+
+(* Patch of a [2;2] source into a [3;4] target at rows 1..3, columns 2..4 *)
+Example vjp_patch_ex :
+  let xv := ofFun [3%nat; 4%nat] val2 in let pv := ofFun [2%nat; 2%nat] val2 in let gy := ofFun [3%nat; 4%nat] val2 in
+  let index := [(1, 3); (2, 4)]%Z in
+  let h := [mkLeaf xv; mkLeaf pv; mkRes xv gy [(0%nat, RPatchX 2 1 index); (1%nat, RPatchP 2 1 index)]] in
+  (exists g, eval_rule RedSum h (RPatchX 2 1 index) = Ok g /\ dims g = [3%nat; 4%nat] /\
+             elt g [1%nat; 2%nat] = 0 /\ elt g [0%nat; 2%nat] = val2 [0%nat; 2%nat]) /\
+  (exists g, eval_rule RedSum h (RPatchP 2 1 index) = Ok g /\ dims g = [2%nat; 2%nat] /\
+             elt g [1%nat; 0%nat] = val2 [2%nat; 2%nat]).
+Proof.
+  intros xv pv gy index h.
+  assert (Hwp : wf pv) by (apply wf_ofFun_ex; repeat constructor).
+  assert (Hwg : wf gy) by (apply wf_ofFun_ex; repeat constructor).
+  split.
+  - destruct (vjp_patch_tgt RedSum h 2 1 index xv pv gy eq_refl eq_refl Hwp Hwg eq_refl eq_refl)
+      as (g & Eg & Hd & _ & Hel & _).
+    exists g. split; [exact Eg|]. split; [exact Hd|]. split.
+    + rewrite (Hel [1%nat; 2%nat]) by (repeat constructor). reflexivity.
+    + rewrite (Hel [0%nat; 2%nat]) by (repeat constructor).
+      replace (inBlock (completeIndex (rangesOf index) (dims pv)) (dims pv) [0%nat; 2%nat]) with false by (vm_compute; reflexivity).
+      apply elt_ofFun. repeat constructor.
+  - destruct (vjp_patch_src RedSum h 2 1 index xv pv gy eq_refl eq_refl Hwp Hwg eq_refl eq_refl)
+      as (g & Eg & Hd & _ & Hel & _).
+    exists g. split; [exact Eg|]. split; [exact Hd|].
+    rewrite (Hel [1%nat; 0%nat]) by (repeat constructor).
+    replace (shift [1%nat; 0%nat] (completeIndex (rangesOf index) (dims pv))) with [2%nat; 2%nat] by (vm_compute; reflexivity).
+    apply elt_ofFun. repeat constructor.
+Qed.
+
+(* Transpose of [2;3] *)
+Example vjp_transpose_ex :
+  let xv := ofFun [2%nat; 3%nat] val2 in let gy := ofFun [3%nat; 2%nat] val2 in
+  let h := [mkLeaf xv; mkRes gy gy [(0%nat, RTranspose 1)]] in
+  exists g, eval_rule RedSum h (RTranspose 1) = Ok g /\ dims g = [2%nat; 3%nat] /\
+            elt g [1%nat; 2%nat] = val2 [2%nat; 1%nat].
+Proof.
+  intros xv gy h.
+  assert (Hwg : wf gy) by (apply wf_ofFun_ex; repeat constructor).
+  assert (Hrk : (2 <= length (dims xv))%nat) by (cbn; lia).
+  destruct (vjp_transpose RedSum h 1 xv gy eq_refl Hwg Hrk eq_refl) as (g & Eg & Hd & _ & Hel & _).
+  exists g. split; [exact Eg|]. split; [exact Hd|].
+  rewrite (Hel [1%nat; 2%nat]) by (repeat constructor).
+  change (transposeDims [1%nat; 2%nat]) with [2%nat; 1%nat]. apply elt_ofFun. repeat constructor.
+Qed.
+
+(* Concat of [2;1;2], [2;2;2], [2;1;2] along dimension 1: the edge of the middle operand *)
+Example vjp_concat_ex :
+  let gy := ofFun [2%nat; 4%nat; 2%nat] val2 in
+  let index := [(0, 0); (1, 3); (0, 0)]%Z in
+  let h := [mkRes gy gy []] in
+  exists g, eval_rule RedSum h (RConcat 0 index) = Ok g /\ dims g = [2%nat; 2%nat; 2%nat] /\
+            elt g [1%nat; 0%nat; 1%nat] = val2 [1%nat; 1%nat; 1%nat].
+Proof.
+  intros gy index h.
+  assert (Hwg : wf gy) by (apply wf_ofFun_ex; repeat constructor).
+  destruct (vjp_concat RedSum h 0 index gy (fun _ => 0) (fun _ => 0) eq_refl Hwg eq_refl) as (g & Eg & Hd & _ & Hel & _).
+  exists g. split; [exact Eg|]. split; [exact Hd|].
+  rewrite (Hel [1%nat; 0%nat; 1%nat]) by (rewrite Hd; repeat constructor).
+  replace (shift [1%nat; 0%nat; 1%nat] (completeIndex (rangesOf index) (dims gy))) with [1%nat; 1%nat; 1%nat] by (vm_compute; reflexivity).
+  apply elt_ofFun. repeat constructor.
+Qed.
+
 End Inst.
+
+Print Assumptions vjp_gather.
+Print Assumptions vjp_gather_inv.
+Print Assumptions vjp_reshape.
+Print Assumptions vjp_slice.
+Print Assumptions bcastBack_char.
+Print Assumptions vjp_broadcast_sum.
+Print Assumptions broadcast_avg_char.
+Print Assumptions broadcast_avg_refuted.
+Print Assumptions vjp_patch_src.
+Print Assumptions vjp_patch_tgt.
+Print Assumptions vjp_concat.
+Print Assumptions vjp_transpose.
+Print Assumptions vjp_concat_edge.
+Print Assumptions vjp_broadcast_fwd.
+Print Assumptions vjp_patch_fwd.
